@@ -573,7 +573,9 @@ lyjson_exp_number(const struct ly_ctx *ctx, const char *in, const char *exponent
             dp_position = 1;
             dot = 1;
         } else {
-            dot = 0;
+            /* the new decimal point goes behind the digits that are left before it once the zeros are dropped */
+            dp_position = dp_position + 1 - zeros;
+            dot = (dp_position < (ssize_t)(num_len - zeros)) ? 1 : 0;
         }
         buf_len = minus + dot + (num_len - zeros);
         LY_CHECK_RET(lyjson_get_buffer_for_number(ctx, buf_len, &buf));
